@@ -771,3 +771,22 @@ package larking
 //@ func inPayload serves C18
 //@   ensures [payload-event C18] result != nil && result.Client == client && result.Length == len(payload) && (len(payload) <= 4611686018427387904 ==> result.WireLength == len(payload) + 5)
 //@   oracle result.Client == client && result.Length == len(payload) && result.WireLength == len(payload)+5
+
+//@ func (*state).pickMethodHandler serves C11 C09
+//@   returns (hd, err)
+//@   ensures [no-handler-with-error C11] err != nil ==> hd == nil
+
+//@ func (*state).match serves C01 C09
+//@   returns (m, ps, err)
+//@   requires TrieWf() && (s != nil ==> s.path != nil)
+//@   modifies F$lexer, E$token, E$param
+//@   ensures [nil-state-routes-nothing C11] s == nil ==> err != nil
+//@   ensures [found] err == nil ==> m != nil
+
+// gRPC-web-text: the base64 stream must be closed so that the last partial
+// 3-byte group reaches the client (C06: no lost byte).
+//@ func (*webWriter).flushWithTrailer serves C06 partial count post
+//@   requires w != nil
+//@   count closes `c.Close(`
+//@   witness verifWitnessWebText
+//@   ensures [text-encoder-closed C06] w.typ == "application/grpc-web-text" && (old(w.wroteHeader) || old(w.wroteResp)) ==> closes == 1
